@@ -400,6 +400,17 @@ def serde_shape(ctx, crate, crs, e, tag):
                                                                              "bitvec::macros::internal::core::slice::iter"})
         ctx.ob("serde-shape" + tag, ser.key, "slots-in-order", q.mentions_field(d, M, "chunks") and "std::iter::Iterator::flatten" in ch,
                where_call(ser, i), "the slots are the flattened chunks in storage order")
+    # whatever shape the loop has: the counter that becomes the id counts the *raw* slots of the sequence, holes included - no
+    # adaptor that drops or skips elements may sit between the deserialised Vec and `enumerate` (seed C19-20: `.flatten().enumerate()`)
+    for bb_ in [de] + [c for c in crate.bodies if c.kind == "Closure" and c.root and strip_generics(c.root) == de.key]:
+        for i, t in bb_.calls():
+            if t.get("f") and t["f"]["name"] == "enumerate" and t["args"]:
+                lv = q.leaves(bb_, t["args"][0])
+                bad = sorted({x[5:] for x in lv if x.startswith("call:")} & {"flatten", "filter", "filter_map", "flat_map", "skip", "skip_while",
+                                                                               "step_by", "take_while", "rev", "chain", "dedup", "peekable"})
+                ctx.ob("serde-shape" + tag, de.key, "ids-count-raw-slots", not bad, where_call(bb_, i),
+                       "enumerate() runs over the deserialised sequence itself" if not bad else
+                       "the position that becomes the id is counted after %s: every id behind a hole shifts" % ", ".join(bad))
     ins = de.calls_to(MP + "insert")
     ctx.floor("serde-shape" + tag, "insert in Deserialize", len(ins), 1)
     for i, t in ins:
